@@ -1,4 +1,5 @@
 import Sigc.Lemmas.RefineMutual
+import Sigc.Lemmas.RefineTdB
 /-!
 # Refinement: the mechanism model `P` (`Sigc.Model`) is simulated by the statement-level specification
 `S'` = `Sigc.Spec` run with `k1 := true, k2 := true` (the specification with the two known findings
@@ -64,6 +65,88 @@ theorem refines (fuel : Nat) (P : Prog) (s : St) (h : Model.runTop fuel P {} P.t
 example : ∀ fuel s, Model.runTop fuel exProg {} exProg.top = some s →
     ∃ fuel' t, Spec.runTop fuel' exProg { k1 := true, k2 := true } exProg.top = some t ∧ Allows t.trace s.trace :=
   fun fuel s h => refines fuel exProg s h
+
+/-! ## the driver: `teardown` and `runProgram`
+
+What the correspondence check compares with the real library is `runProgram`: the trace of `runTop` followed by
+`teardown` (destroy every scoped connection, connection and slot variable, `clear()` every signal, destroy every
+signal object — also the pinned and the functor-owned ones — and every trackable) and the line
+`0 final live=<liveTotal>`. -/
+
+/-- **the teardown is simulated**: from related states (`R`) with the model state satisfying the all-history
+    invariants (`Emit.Inv`, `Inv.TdInv`) and no emission in progress — all of which hold after every terminating
+    `runTop`, see `refines_driver` — whenever the model's teardown terminates, the specification's teardown
+    terminates with the same fuel in a related state, and the model's final state satisfies `Emit.Inv`
+    (in particular `err = none`). -/
+theorem teardown_sim (fuel : Nat) (P : Prog) (s : St) (t : Spec.LSt) (s' : St) (hs : Emit.Inv s) (hR : R s t)
+    (hc : ∀ i, Emit.execOf s i = 0) (htd : Inv.TdInv s) (h : Model.teardown fuel P s = some s') :
+    ∃ t', Spec.teardown fuel P t = some t' ∧ R s' t' ∧ Emit.Inv s' :=
+  let ⟨t', ht', hb⟩ := Td.teardown_bun fuel P ⟨hs, hR, hc, htd⟩ h
+  ⟨t', ht', hb.rel, hb.inv⟩
+
+/-- on the initial states (nothing to destroy) -/
+example : ∀ fuel s', Model.teardown fuel exProg {} = some s' →
+    ∃ t', Spec.teardown fuel exProg { k1 := true, k2 := true } = some t' ∧ R s' t' ∧ Emit.Inv s' :=
+  fun fuel s' h => teardown_sim fuel exProg {} _ s' Emit.inv_init init_related (fun i => by simp [Emit.execOf])
+    ⟨Inv.WF.init, Inv.Bal.init, Inv.Inc.init⟩ h
+
+/-- **the refinement theorem for the driver** (`runTop` followed by `teardown`): every terminating run of the
+    mechanism model is matched, with the same fuel, by a run of the specification `S'`; the final states are
+    related (`Allows t'.trace s'.trace`), the model reports no error, and neither side holds a functor copy
+    (`final live=0` on both sides). -/
+theorem refines_driver (fuel : Nat) (P : Prog) (s s' : St) (h : Model.runTop fuel P {} P.top = some s)
+    (ht : Model.teardown fuel P s = some s') :
+    ∃ t t', Spec.runTop fuel P { k1 := true, k2 := true } P.top = some t ∧ Spec.teardown fuel P t = some t' ∧
+      R s' t' ∧ Emit.Inv s' ∧ Model.liveTotal s' = 0 ∧ Spec.liveTotal t' = 0 := by
+  obtain ⟨t, hrun, hR, hs⟩ := refines_state fuel P s h
+  have hc : ∀ i, Emit.execOf s i = 0 := fun i => by
+    rw [(Emit.runTop_good fuel P {} P.top s Emit.inv_init h).frame.exec i]; simp [Emit.execOf]
+  have htd : Inv.TdInv s :=
+    ⟨(Inv.Links.reachable fuel P s h).1.1, Inv.Bal.reachable fuel P s h, Inv.Inc.reachable fuel P s h⟩
+  obtain ⟨t', ht', hR', hs'⟩ := teardown_sim fuel P s t s' hs hR hc htd ht
+  obtain ⟨_, _, _, hS, _, _, hI⟩ := Inv.teardown_empty fuel P s s' htd ht
+  exact ⟨t, t', hrun, ht', hR', hs', Inv.liveTotal_nil hS hI, spec_liveTotal_zero hR' hS hI⟩
+
+example : ∀ fuel s s', Model.runTop fuel exProgG {} exProgG.top = some s → Model.teardown fuel exProgG s = some s' →
+    ∃ t t', Spec.runTop fuel exProgG { k1 := true, k2 := true } exProgG.top = some t ∧
+      Spec.teardown fuel exProgG t = some t' ∧ R s' t' ∧ Emit.Inv s' ∧ Model.liveTotal s' = 0 ∧ Spec.liveTotal t' = 0 :=
+  fun fuel s s' h ht => refines_driver fuel exProgG s s' h ht
+
+/-- **the refinement theorem for what the driver prints** — partial: for every program text whose model run does
+    not run out of fuel, the output of the specification `S'` (driver mode `spec-known`) is some `out` that allows
+    the model's output line by line (equal lines, or `… => *` in the specification) — possibly followed by a
+    `SPEC-ERROR` line.  Missing for the full statement `runProgram_refines` (in the comment below): the
+    specification's own error flag `Spec.LSt.err` is not part of the simulation relation `R`, so the absence of
+    the `SPEC-ERROR` line does not follow from `refines_driver`. -/
+theorem runProgram_refines_partial (lines : List String) (h : Model.runProgram lines ≠ ["MODEL-FUEL"]) :
+    ∃ out, AllowsLines out (Model.runProgram lines) ∧
+      (Spec.runProgram true true lines = out ∨
+       ∃ e : String, Spec.runProgram true true lines = out ++ [s!"SPEC-ERROR {e}"]) := by
+  unfold Model.runProgram at h ⊢
+  unfold Spec.runProgram
+  simp only at h ⊢
+  cases h1 : Model.runTop defaultFuel (parseProg lines) {} (parseProg lines).top with
+  | none => rw [h1] at h; exact absurd rfl h
+  | some s =>
+    rw [h1] at h
+    simp only at h ⊢
+    cases h2 : Model.teardown defaultFuel (parseProg lines) s with
+    | none => rw [h2] at h; exact absurd rfl h
+    | some s' =>
+      obtain ⟨t, t', hr, ht, hR, hs', hl, hl'⟩ := refines_driver _ _ s s' h1 h2
+      rw [hr]
+      simp only
+      rw [ht]
+      simp only
+      rw [hs'.noerr]
+      simp only
+      have e : (s!"0 final live={Spec.liveTotal t'}" : String) = s!"0 final live={Model.liveTotal s'}" := by
+        rw [hl, hl']
+      refine ⟨t'.trace.reverse.map renderEvent ++ [s!"0 final live={Spec.liveTotal t'}"], ?_, ?_⟩
+      · rw [e]; exact (lines_of_allows hR.trace).snoc_same _
+      · cases t'.err with
+        | none => exact Or.inl rfl
+        | some e' => exact Or.inr ⟨e', rfl⟩
 
 /-- related traces contain the same slot invocations -/
 theorem allows_calls {ts tm : List Event} (h : Allows ts tm) : calls ts = calls tm := by
